@@ -49,6 +49,8 @@ class Worker:
         self.hashseed = spec.get("hashseed", "0")
         self.psutil = None
         self.fork_timeout = spec.get("fork_timeout", 20.0)
+        self.digest_all = hashlib.sha256()
+        self.ndigests = 0
 
     # -- zygote
     def import_psutil(self):
@@ -118,7 +120,11 @@ class Worker:
 
     def execute_forked(self, plan):
         self.import_psutil()
-        return self.fork(lambda: self.engine.execute(self, plan))
+        r = self.fork(lambda: self.engine.execute(self, plan))
+        if isinstance(r, dict):
+            self.digest_all.update(str(r.get("digest")).encode())
+            self.ndigests += 1
+        return r
 
     # -- batch
     def run_batch(self):
@@ -158,6 +164,8 @@ class Worker:
                 seen.add(s)
                 out["violations"].append(v)
         out["keys"] = sorted(out["keys"])
+        out["digest_all"] = self.digest_all.hexdigest()
+        out["ndigests"] = self.ndigests
         return out
 
     # -- replay (fresh interpreter, no fork)
